@@ -53,7 +53,7 @@ CFG = dict(
              "parameters must be rejected on both sides); op sequences compared with the model (shape); the WF predicate evaluated on EVERY mesh the implementation returns, "
              "including un-modelled operations (slice by plane, colour LUT/space, implicit-weld normals, axis Laplacian, scale along normal, 2-D scale/normalise) and un-modelled "
              "generators (Bowyer-Watson, constrained Bowyer-Watson with clipping constraints, repeat, marching).",
-        note="Trusted: Lean kernel + 3 axioms; harness. Not theorems (WF oracle on implementation output only): the un-modelled operations and generators listed above; the "
+        note="Trusted: Lean kernel + 3 axioms; harness. Not theorems (WF oracle on implementation output only): the un-modelled operations and generators listed above; bowyerWatson_wf is about the C20 model Model/Delaunay.lean (tied to Go by C20's correspondence); the "
              "marching theorems are about an abstract LookupOrAdd allocation tied to canvas.go by the oracle; generator theorems are about the Lean generators, linked to Go by the "
              "sweeps. Raw setters outside their guards are not claimed. SplitOnUniqueMaterials panics (index out of range) on material ranges shorter than the triangle list: "
              "recovered by the harness and counted as a rejection (material ranges are outside WF). Defects found and fixed: filters on indexed meshes, Circle{Sides<3}, "
